@@ -132,9 +132,9 @@ Definition REG_SIG : N := 1.       (* a registration signature that verifies *)
 Definition other_id (t : N) : N := 100 + t.   (* the id a wrong-key signature recovers to *)
 
 (* ---------- results ---------- *)
-Inductive retry_err := ESubscription (permanent : bool) | EUnreachable | EMisbehaving (l : N) | EAbandoned.
+Inductive retry_err := ESubscription (permanent : bool) | EUnreachable | EMisbehaving (l : N) | EFlagged | EAbandoned.
 Definition is_permanent (e : retry_err) : bool :=
-  match e with ESubscription true | EMisbehaving _ | EAbandoned => true | _ => false end.
+  match e with ESubscription true | EMisbehaving _ | EFlagged | EAbandoned => true | _ => false end.
 
 Inductive run_res :=                 (* what ONE call of Retrier::run does *)
 | RunOk
@@ -169,6 +169,18 @@ Definition lift_site (r : cres) : option fsite := match r with RAbort st => Some
 
 (* ================= main.rs ================= *)
 
+(* WTClient::flag_unreachable_tower (fix b2b8ee7): a REACHABLE tower with pending data becomes temporary unreachable
+   and its pending set is handed to the retry manager; in every other case nothing changes.
+   (The send fails only when the manager task is gone, which needs a poisoned mutex: the caller has panicked before.) *)
+Definition flag_unreachable (s : fstate) (t : N) : fstate :=
+  match aget (c_towers (f_c s)) t with
+  | Some su =>
+    if is_reachable (su_status su) && match su_pending su with [] => false | _ => true end
+    then push_chan (set_c s (wt_set_tower_status (f_c s) t TemporaryUnreachable)) t (DStale (su_pending su))
+    else s
+  | None => s
+  end.
+
 (* register (the user supplies tower id and address; `addr` is the id of host:port) *)
 Definition f_register (s : fstate) (t addr : N) (rp : rreply) : fstate * fout :=
   if poisoned s then (s, OPanic (SClient Site_poisoned)) else
@@ -185,8 +197,7 @@ Definition f_register (s : fstate) (t addr : N) (rp : rreply) : fstate * fout :=
     end
   | RConnErr =>
     (* `if e.is_connection() && state.towers.contains_key(&tower_id)` *)
-    (if amem (c_towers (f_c s1)) t then set_c s1 (wt_set_tower_status (f_c s1) t TemporaryUnreachable) else s1,
-     OErr E_connection)
+    (if amem (c_towers (f_c s1)) t then flag_unreachable s1 t else s1, OErr E_connection)
   | RApiErr => (s1, OErr E_api)
   | RDeserErr | RUnexpected => (s1, OErr E_request)
   end.
@@ -310,9 +321,11 @@ Definition should_start (r : retrier) : bool :=
 (* Retrier::start, the synchronous part: tower status, retrier status, tokio::spawn *)
 Definition retrier_start (s : fstate) (t : N) (r : retrier) : fstate * option fsite :=
   let c := f_c s in
+  let failed := put_retrier s t {| r_status := RFailed; r_pending := r_pending r |} in
   match aget (c_towers c) t with
-  | None => (kill_mgr (set_c s (poison c)), Some (SClient Site_retrier_start_status_unwrap))
+  | None => (failed, None)            (* abandoned in the meantime (fix 29264ec): set_status(Failed), nothing spawned *)
   | Some su =>
+    if is_misbehaving (su_status su) then (failed, None) else    (* flagged in the meantime (fix 9d6311c) *)
     let c1 := if is_subscription_error (su_status su) then c else wt_set_tower_status c t TemporaryUnreachable in
     let c2 := with_retriers c1 (aset (c_retriers c1) t RRunning) in
     (set_tasks (put_retrier (set_c s c2) t {| r_status := RRunning; r_pending := r_pending r |}) (f_tasks s ++ [t]), None)
@@ -406,14 +419,20 @@ Definition retrier_drop (s : fstate) (t l : N) : fstate :=    (* self.pending_ap
   | None => s
   end.
 
+Definition still_pending (c : client) (t l : N) : bool :=
+  match aget (c_towers c) t with Some su => memN l (su_pending su) | None => false end.
+(* fix 8108569: the body is loaded only for a locator that is STILL pending for this tower *)
+Definition load_pending (c : client) (t l : N) : option row :=
+  if still_pending c t l then dbm_load_appointment (c_db c) l else None.
+
 (* the `for locator in locators` loop of run.  None = the loop finished, Some r = run returned r / panicked *)
 Fixpoint run_for (s : fstate) (t : N) (locs : list N) (adds : list areply) : fstate * list areply * option run_res :=
   match locs with
   | [] => (s, adds, None)
   | l :: rest =>
     if poisoned s then (s, adds, Some (RunAbort (SClient Site_poisoned))) else
-    match dbm_load_appointment (c_db (f_c s)) l with
-    | None => (set_c s (poison (f_c s)), adds, Some (RunAbort (SClient Site_retrier_load_appointment_unwrap)))
+    match load_pending (f_c s) t l with
+    | None => run_for (retrier_drop s t l) t rest adds     (* dropped from the set, nothing sent, no panic *)
     | Some body =>
       let s1 := log_req s (ReqAdd t l) in
       let (rp, adds') := next_reply adds in
@@ -473,6 +492,7 @@ Definition run_attempt (s : fstate) (t : N) (a : attempt) : fstate * run_res :=
   match aget (c_towers (f_c s)) t with
   | None => (s, RunErr EAbandoned)
   | Some su =>
+    if is_misbehaving (su_status su) then (s, RunErr EFlagged) else     (* fix 9d6311c *)
     let go (s0 : fstate) := run_while (run_fuel s0 t) s0 t (at_order a) (at_adds a) in
     if is_subscription_error (su_status su) then
       let s1 := log_req s (ReqRegister t) in
@@ -521,7 +541,7 @@ Definition task_step (s : fstate) (t : N) (r : run_res) (more : bool) : fstate *
       | Some site => (end_task (set_c s1 c2) t, OutAbort site)
       | None => (end_task (wr_c s1 c2) t, OutFailed e)
       end
-    | EAbandoned => (end_task s1 t, OutFailed e)
+    | EFlagged | EAbandoned => (end_task s1 t, OutFailed e)
     | _ =>
       (* set_status(Idle(now)); pending.clear(); set_tower_status(Unreachable) *)
       let c := f_c s1 in
@@ -631,30 +651,3 @@ Definition owed (s : fstate) (t l : N) : bool :=
   existsb (pairN_eqb (t, l)) (f_due s) && tower_row (c_db (f_c s)) t && negb (exists_misbehaving_proof (c_db (f_c s)) t).
 Definition owed_db (s : fstate) (d : db) (t l : N) : bool :=
   existsb (pairN_eqb (t, l)) (f_due s) && tower_row d t && negb (exists_misbehaving_proof d t).
-
-(* the guards of the universal theorems: registertower is not used (fresh_ok) to register again with a tower the
-   client has abandoned while the retry manager still tracks data for it (a retrier with a non-empty set or a queued
-   message), (flagged_ok) against a tower already proven misbehaving.  Outside them the statements are REFUTED by
-   genuine defects of the code (see Properties/C05.v, C14.v). *)
-Definition tracked (s : fstate) (t : N) : list N :=
-  retrier_pending s t ++ flat_map (fun m => if N.eqb (fst m) t then rdata_set (snd m) else []) (f_chan s).
-Definition fresh_ok (s : fstate) (o : fop) : bool :=
-  match o with
-  | FRegister t _ => amem (c_towers (f_c s)) t || match tracked s t with [] => true | _ => false end
-  | _ => true
-  end.
-Definition flagged_ok (s : fstate) (o : fop) : bool :=
-  match o with
-  | FRegister t _ => negb (exists_misbehaving_proof (c_db (f_c s)) t)
-  | _ => true
-  end.
-Fixpoint ops_fresh (s : fstate) (ops : list fop) : bool :=
-  match ops with
-  | [] => true
-  | o :: rest => fresh_ok s o && ops_fresh (fst (fstep s o)) rest
-  end.
-Fixpoint ops_ok (s : fstate) (ops : list fop) : bool :=
-  match ops with
-  | [] => true
-  | o :: rest => fresh_ok s o && flagged_ok s o && ops_ok (fst (fstep s o)) rest
-  end.
